@@ -2,6 +2,7 @@ import BB.Proofs.CachingDedupRun
 import BB.Proofs.CachingLimit
 import BB.Proofs.CachingExistenceWf
 import BB.Proofs.CachingCompositeFaults
+import BB.Proofs.CachingReplicate
 /-!
 # Property C17 - read caching, fallback, replicators and existence caches are transparent
 
@@ -537,6 +538,16 @@ theorem C17_fallback_transparent (r : Repl) (hr : r = .noop ∨ r.copying = true
     (r.copying = true → ∀ k ∈ ks, (p.src.data k).isSome = true →
       ((fallbackFindMissing r p ks).1.sink.data k).isSome = true) :=
   ⟨(C17_cache_transparent r hr p k hnf).1, rfl, fallbackFindMissing_spec r hr p ks hnf⟩
+
+/-- **A copying replicator never reports success without the sink holding the objects**: for
+every fault script, every backend contents and every digest list (the empty blob is a key like
+any other - nothing is "implicitly present"), if `ReplicateMultiple` of `local` or of
+`dedup`/`limit` nestings around it returns nil, every requested object is in the sink
+afterwards; and no replication ever removes an object from the sink. -/
+theorem C17_replicate_ok_holds (r : Repl) (hr : r.copying = true) (p : Pair) (ks : List Key) :
+    ((replMultiple r p ks).2 = none → ∀ k ∈ ks, ((replMultiple r p ks).1.sink.data k).isSome = true) ∧
+    (∀ k, (p.sink.data k).isSome = true → ((replMultiple r p ks).1.sink.data k).isSome = true) :=
+  ⟨(replMultiple_ok r hr).holds p ks, (replMultiple_ok r hr).mono p ks⟩
 
 /-- Non-vacuity: slow holds key 7, fast is empty, `dedup local`: the read returns the value and
 fills the fast backend; key 8 is in neither and yields NOT_FOUND; fallback `FindMissing [7, 8]`
